@@ -947,7 +947,7 @@ def j9_class_ids_are_positions(ctx) -> None:
             is_len = any(isinstance(x, ast.Call) and norm(x) == f"len({arr})" for x in ast.walk(v))
             fresh = (f"{c} not in {idm}", True) in C.guard_texts(f, st) or (f"{c} in {idm}", False) in C.guard_texts(f, st)
             blk = C.block_path(f, st)[-1]
-            later = blk[2][blk[3] + 1:]
+            later = [x_ for x_ in blk[2][blk[3] + 1:] if not isinstance(x_, ast.Pass)]
             app = any(isinstance(x, ast.Call) and norm(x.func) == f"{arr}.append" and x.args and norm(x.args[0]).startswith(f"{c}.") for s2 in later[:1] for x in ast.walk(s2))
             if is_len and fresh and app:
                 # `for c in (c1, c2):` covers both components of the pair with one site
